@@ -773,8 +773,9 @@ class GroupReduce(Contract):
     loop_heads = {0: 'for p in range(biggest_entity_size)'}
     prop = ("C10",)
     top_level = True
-    cases = ("max", "min", "max-role", "min-role", "all", "all-role")
-    descr = ("reduce with numpy.maximum / numpy.minimum and a neutral element beyond every value gives, per group, a bound of the values "
+    cases = ("max", "min", "max-role", "min-role", "all", "all-role", "max-capped-role", "min-capped-role")
+    descr = ("(a role may declare a cap `max` on its members per group: it says nothing about where they are stored) "
+             "reduce with numpy.maximum / numpy.minimum and a neutral element beyond every value gives, per group, a bound of the values "
              "of exactly its members (in the role) that is attained by one of them - the neutral element where there is none; with "
              "numpy.logical_and and True it is true exactly when the array is true for every member (in the role)")
 
@@ -783,6 +784,10 @@ class GroupReduce(Contract):
         w = GWorld(I, ctx, roles=case.endswith("role"))
         ctx.ghost["gw"] = w
         ctx.assume(w.N >= 1)
+        if case.endswith("capped-role"):
+            cap = ctx.fresh_int("role_max")
+            ctx.assume(cap >= 1)
+            w.role.fields["max"] = Sym(cap)
         if kind == "all":
             NEU = z3.BoolVal(True)
             BA = z3.Function(ctx.fresh_name("BOOLA"), z3.IntSort(), z3.BoolSort())
